@@ -326,7 +326,7 @@ func RunSteeredQueue(c QCfg, rounds int) *core.Trace {
 	prod, cons := core.Spawn("producer"), core.Spawn("consumer")
 	defer prod.Drain()
 	defer cons.Drain()
-	const tmo = 20 * time.Second
+	const tmo = 60 * time.Second
 	wait := func(p *core.Proc, want string) bool {
 		got, ok := p.Wait(tmo)
 		if !ok || got != want {
